@@ -1099,12 +1099,12 @@ class SymCtx:
                 sv.pop()
                 r = sv.check()
             if r != z3.sat:
-                # small-scale inputs: any magnitudes, but a violation of at least 1 % of the expected value
+                # small-scale inputs: any magnitudes, but a violation of at least 0.1 % of the expected value (the replay compares at 0.01 %)
                 sv = z3.Solver()
-                sv.set("timeout", 15000)
+                sv.set("timeout", 30000)
                 sv.add(chosen)
                 sv.add(z3.Not(goal))
-                sv.add(z3.Or(z3.And(b > 0, z3.Or(d * 100 >= b, d * 100 <= -b)), z3.And(b < 0, z3.Or(d * 100 >= -b, d * 100 <= b))))
+                sv.add(z3.Or(z3.And(b > 0, z3.Or(d * 1000 >= b, d * 1000 <= -b)), z3.And(b < 0, z3.Or(d * 1000 >= -b, d * 1000 <= b))))
                 r = sv.check()
         else:
             r = sv.check()
